@@ -286,14 +286,51 @@ def gen_ops(rng, n, ev_cs, span_cs, probe_cs, malformed):
     return ops
 
 
+def gen_ops_deep(rng, n, ev_cs, span_cs):
+    """histories that nest: most new spans are entered at once, so that scopes are several spans deep when events, records
+    and further spans happen (what parent() / scope() / from_root() climbing needs to show a rejected ancestor)"""
+    ops, nh, live, entered = [], 0, [], []
+    for _ in range(n):
+        r = rng.random()
+        if r < 0.30 and len(entered) < 6:
+            ops.append(["S", rng.choice(span_cs)])
+            ops.append(["N", nh])
+            live.append(nh)
+            entered.append(nh)
+            nh += 1
+        elif r < 0.58:
+            ops.append(["E", rng.choice(ev_cs)])
+        elif r < 0.66:
+            ops.append(["S", rng.choice(span_cs)])
+            live.append(nh)
+            nh += 1
+        elif r < 0.76 and live:
+            ops.append(["R", rng.choice(live)])
+        elif r < 0.90 and entered:
+            h = entered.pop(-1 if rng.random() < 0.85 else rng.randrange(len(entered)))
+            ops.append(["X", h])
+        elif live:
+            cand = [h for h in live if h not in entered] or live
+            h = rng.choice(cand)
+            live.remove(h)
+            entered[:] = [e for e in entered if e != h]
+            ops.append(["D", h])
+        else:
+            ops.append(["E", rng.choice(ev_cs)])
+    return ops
+
+
 def gen_case(rng, idx, kind):
     """kind: 'clean' (no probes, no vetoes), 'agree' (clean; static per-layer filters that all accept one target and differ
-    elsewhere: cached-`always` callsites hit repeatedly next to emissions the layers disagree on), 'unclean' (probes and
+    elsewhere: cached-`always` callsites hit repeatedly next to emissions the layers disagree on), 'deep' (clean; histories
+    that keep several spans entered, span callsites at several levels: deep scopes with rejected ancestors), 'unclean' (probes and
     vetoing plain layers), 'flat' (the F3 shape: a few filtered recorders side by side), 'outside' (global filters or
     vetoing recorders inside a Filtered: correspondence only)"""
     ev_cs = sorted(rng.sample(range(0, 15), rng.randint(2, 5)))
     span_cs = sorted(c + 15 for c in rng.sample(range(0, 15), rng.randint(1, 3)))
     agree = None
+    if kind == "deep":
+        span_cs = sorted(c + 15 for c in rng.sample(range(0, 15), rng.randint(3, 6)))
     if kind == "agree":
         # every per-layer filter accepts target t0 entirely: t0 callsites cache `always` and are hit repeatedly, while the
         # filters differ on the other targets; the callsite pools contain both
@@ -318,6 +355,32 @@ def gen_case(rng, idx, kind):
                 stack.append({"t": "filt", "k": 0, "l": {"t": "rec", "n": g.names, "veto": []}, "f": f})
             else:
                 stack.append({"t": "rec", "n": g.names, "veto": veto})
+    elif kind == "above":
+        # per-layer filters ABOVE a global filter that has a plain layer between itself and the Registry: the `Layered` that
+        # holds the global filter has no per-layer filter in or below it, yet its veto must still clear the bits set above it.
+        # Everything accepts target t0 entirely; the global filter rejects (statically) most of the rest.
+        t0 = rng.randrange(NT)
+        others = [t for t in range(NT) if t != t0]
+        ev_cs = sorted(set([3 * rng.randrange(5) + t0, 3 * rng.randrange(5) + t0] + [3 * rng.randrange(5) + t for t in others]
+                           + [3 * rng.randrange(5) + rng.choice(others)]))
+        span_cs = sorted(set([15 + 3 * rng.randrange(5) + t0, 15 + 3 * rng.randrange(5) + rng.choice(others)]))
+        g.names += 1
+        stack = [{"t": "rec", "n": g.names, "veto": []}]
+        gtbl = [[t0, 5]] + [[t, rng.choice([1, 2])] for t in others if rng.random() < 0.3]
+        stack.append({"t": "glob", "f": {"t": "targets", "tbl": gtbl, "d": None}})
+        for _ in range(rng.randint(1, 3)):
+            g.names += 1
+            ftbl = [[t0, 5]] + [[t, rng.choice([2, 3, 4, 5])] for t in others if rng.random() < 0.5]
+            lay = {"t": "filt", "k": 0, "l": {"t": "rec", "n": g.names, "veto": []}, "f": {"t": "targets", "tbl": ftbl, "d": None}}
+            r = rng.random()
+            if r < 0.2:
+                g.names += 1
+                lay = {"t": "pair", "o": lay, "i": {"t": "rec", "n": g.names, "veto": []}}
+            elif r < 0.35:
+                lay = {"t": "vec", "ls": [lay]}
+            elif r < 0.45:
+                lay = {"t": "opt", "l": lay}
+            stack.append(lay)
     elif kind == "agree":
         stack = [g.layer(rng.randint(1, 3), ev_cs, span_cs) for _ in range(rng.randint(2, 5))]
         if g.nf < 2:        # make sure at least two per-layer-filtered recorders sit side by side
@@ -328,16 +391,26 @@ def gen_case(rng, idx, kind):
     else:
         stack = [g.layer(rng.randint(0, 3), ev_cs, span_cs) for _ in range(rng.randint(1, 5))]
     assign_tags(stack)
-    n = rng.choice([6, 10, 16, 24, 40]) if kind != "agree" else rng.choice([12, 20, 30, 40])
-    ops = gen_ops(rng, n, ev_cs, span_cs, probe_cs, malformed=(rng.random() < 0.25))
+    n = rng.choice([6, 10, 16, 24, 40]) if kind not in ("agree", "above") else rng.choice([12, 20, 30, 40])
+    if kind == "deep":
+        ops = gen_ops_deep(rng, n, ev_cs, span_cs)
+    else:
+        ops = gen_ops(rng, n, ev_cs, span_cs, probe_cs, malformed=(rng.random() < 0.25))
     return {"id": idx, "kind": kind, "stack": stack, "ops": ops}
 
 
 def gen_two(rng, idx):
     """two stacks on two threads: each thread runs its own history on its own stack, the main thread interleaves them; the
     callsite pool (and so the per-callsite interest cache) is shared"""
-    a = gen_case(rng, idx, rng.choice(["clean", "agree", "agree", "flat", "unclean"]))
-    b = gen_case(rng, idx, rng.choice(["clean", "agree", "agree", "clean", "unclean"]))
+    if rng.random() < 0.4:
+        # next to a stack that wants everything (`always` for every callsite) the shared cache holds this stack's own interest
+        # where that is `always`, and `sometimes` where its own answer is `never`: `enabled` passes that its global filter vetoes
+        a = gen_case(rng, idx, rng.choice(["above", "above", "flat", "agree"]))
+        b = {"stack": [] if rng.random() < 0.3 else [{"t": "rec", "n": 1, "veto": []}],
+             "ops": [["E", rng.randrange(15)] for _ in range(rng.randint(0, 4))]}
+    else:
+        a = gen_case(rng, idx, rng.choice(["clean", "agree", "agree", "flat", "unclean", "above"]))
+        b = gen_case(rng, idx, rng.choice(["clean", "agree", "agree", "clean", "unclean"]))
     ops, ia, ib = [], 0, 0
     while ia < len(a["ops"]) or ib < len(b["ops"]):
         if ib >= len(b["ops"]) or (ia < len(a["ops"]) and rng.random() < 0.5):
@@ -497,6 +570,28 @@ class Oracle:
             want_par = None
         if d["par"] != want_par:
             self.bad("parent", "op %d: layer %d saw parent()=%s inside %s, expected %s" % (i, rec["n"], d["par"], d["w"], want_par))
+        # climbing on with parent() hop by hop, parent().scope() and the scope from the root: exactly the ancestors this layer's
+        # own filters accepted, in order (the SpanRef a hop returns must still carry the layer's FilterId)
+        have_ref = ref is not None and self.acc_chain(ref, ch)
+        if have_ref and len(want_scope) >= 2:
+            # is there a rejected real ancestor above the first accepted parent?  (then a second parent() hop must skip it)
+            full, sid = [], ref
+            while sid is not None and sid in self.spans:
+                full.append(sid)
+                sid = self.spans[sid]["parent"]
+            above = full[full.index(want_scope[1]) + 1:]
+            if any(not self.acc_chain(a, ch) for a in above):
+                self.stats["climb_skips"] = self.stats.get("climb_skips", 0) + 1
+        want_chain = want_scope[1:] if have_ref else []
+        if d.get("pch", []) != want_chain:
+            self.bad("parent-chain", "op %d: layer %d climbing with parent() inside %s visited %s, its own accepted ancestors are %s"
+                     % (i, rec["n"], d["w"], d.get("pch"), want_chain))
+        if d.get("psc", []) != want_chain:
+            self.bad("parent-scope", "op %d: layer %d walked parent().scope() = %s inside %s, its own accepted ancestors are %s"
+                     % (i, rec["n"], d.get("psc"), d["w"], want_chain))
+        if d.get("root", []) != want_scope[::-1]:
+            self.bad("from-root", "op %d: layer %d walked scope().from_root() = %s inside %s, its own accepted spans give %s"
+                     % (i, rec["n"], d.get("root"), d["w"], want_scope[::-1]))
         # navigating on from the spans the scope yielded must stay inside the layer's own accepted spans
         want_nav = [[want_scope[j + 1] if j + 1 < len(want_scope) else None, want_scope[j:]] for j in range(len(want_scope))]
         if d.get("nav", []) != want_nav:
@@ -740,8 +835,9 @@ def model_obs_to_json(o):
     if tag == "ODeliver":
         _, name, w, cur, scope, par, nav = o
         unopt = lambda x: None if x is None else x[1]
+        _, each, chain, pscope, root = nav
         return {"d": name, "w": WHATS[w[0]], "x": w[1], "cur": unopt(cur), "scope": list(scope), "par": unopt(par),
-                "nav": [[unopt(p), list(s)] for p, s in nav]}
+                "nav": [[unopt(p), list(s)] for p, s in each], "pch": list(chain), "psc": list(pscope), "root": list(root)}
     if tag == "OFEval":
         return {"fe": o[1], "r": o[2]}
     if tag == "OResult":
@@ -792,7 +888,7 @@ def corpus_cases():
 
 
 REQUIRES = ("From Coq Require Import NArith List Bool.\nFrom TV Require Import Stack.Model Stack.Model2 Stack.Harness.\n"
-            "Import ListNotations.\nLocal Open Scope N_scope.")
+            "Import ListNotations.\nLocal Open Scope N_scope.\nUnset Printing Records.")
 
 
 def run(ctx, only=None, release=None):
@@ -822,12 +918,12 @@ def run(ctx, only=None, release=None):
     rep.proof = coq_prove(ctx, "C07", ["theories/Properties/C07.vo", "theories/Stack/Harness.vo"])
     # ---- cases
     rng = ctx.rng
-    n = 660 if not ctx.thorough() else 4400
+    n = 700 if not ctx.thorough() else 4600
     if only is not None:
         cases = only
     else:
         cases = corpus_cases()
-        kinds = ["clean"] * 6 + ["agree"] * 7 + ["unclean"] * 4 + ["flat"] * 3 + ["outside"] * 2
+        kinds = ["clean"] * 5 + ["agree"] * 7 + ["deep"] * 4 + ["unclean"] * 4 + ["flat"] * 3 + ["outside"] * 2 + ["above"]
         for i in range(n):
             cases.append(gen_case(rng, i, kinds[i % len(kinds)]))
         for i in range(n // 6):
